@@ -22,5 +22,6 @@ for c in "$@"; do
   echo "check $c: $out"
 done
 git -C /repo checkout -q -- .
+( cd /verif && PYTHONPATH=/repo:/verif /venv/bin/python -m harness.translate >/dev/null 2>&1; git checkout -q evidence lean/Gen 2>/dev/null )
 rm -rf /verif/replays
 git -C /repo status --porcelain | head -3
